@@ -53,7 +53,9 @@ HasCfg(p) == p = "dns-udp"
 DNSCrypt(p) == p \in {"dnscrypt-udp", "dnscrypt-tcp"}
 \* The DNSCrypt library keeps DCReserve bytes (64) of the transport's limit for
 \* its encryption header when it truncates, so a DNSCrypt reply may be
-\* truncated although it is up to DCReserve below the limit.
+\* truncated although it is up to DCReserve below the limit (in the traces the
+\* harness passes this as the field slack: 64 over UDP, 65 over TCP, where a
+\* message of exactly MAX - 64 bytes no longer fits a frame once encrypted).
 DCReserve == IF MIN >= 512 THEN 64 ELSE 1
 
 -----------------------------------------------------------------------------
